@@ -28,6 +28,14 @@ CHECKS = {
     technique='TLA+ SioServer.tla (acks config) + exhaustive graph validation',
     text='C06_IssuedIdUnique, C06_AckOutcome (callback only for owner+id, exact args, every other ACK leaves ALL state unchanged and raises nothing), C06_IssuedMatchesCore, over ACK ids {0, issued, duplicate, never issued, other client, other namespace} and binary ACKs.',
     ref='4/C06', note=SRV_NOTE),
+ 'C08': dict(
+    technique='TLA+ SioClient.tla (state config) model-checked by TLC + exhaustive transition-graph validation of Client and AsyncClient over a modelled engine.io client',
+    text='C08_Mirror (after a successful connect(wait=True) namespaces/sids/connected mirror what the conformant server accepted and has not ended), C08_ConnectOutcome (one CONNECT per namespace with the auth, success iff all accepted, otherwise ConnectionError and fully disconnected), C08_BadNamespace, C08_HandlersOnce, C08_FullyDisconnected: invariants on the spec; connect(wait=True) is one re-entrant transition whose server replies (orders, partial acceptance, silence) are action arguments; every edge of the real Client/AsyncClient validated (virtual-time loop for asyncio), state counts equal.',
+    ref='4/C08', note='Trusted: TLC; FakeEio transcribes the engine.io client state machine (EioClient.tla) because its transports need packages absent from the sandbox; conformant-server environment as the property assumes.'),
+ 'C09': dict(
+    technique='TLA+ SioClient.tla (acks config) + exhaustive graph validation of Client and AsyncClient',
+    text='C09_EventDispatch (one handler call, one ACK/BINARY_ACK with the id and namespace even when no handler is responsible), C09_IssuedIdUnique, C09_AckOutcome (callback once, only for namespace+id outstanding, unknown/repeated ACKs change nothing), C09_IssuedMatchesCore; call() with every order of {ACK, other ACK, transport error, silence} as one re-entrant transition.',
+    ref='4/C09', note='Trusted: TLC; FakeEio (see C08).'),
  'C11': dict(
     technique='TLA+ SioServer.tla (residue config, raising handlers) + exhaustive graph validation + reachability scan of the real server object',
     text='C11_NoResidue and C11_FreshWhenEmpty on spec and on every implementation state; the projection adds a walk of everything reachable from the server object looking for ids of departed clients. Known finding D3 (raising disconnect handler) is modelled as a named deviation; the design without it is model-checked too.',
